@@ -35,6 +35,7 @@ def plan(tier, seed):
             for mutual in (False, True):
                 units.append({'kind': 'handshake', 'proto': proto, 'mutual': mutual, 'weight': 3})
             units.append({'kind': 'handshake-fail', 'proto': proto, 'weight': 3})
+            units.append({'kind': 'recv-fail', 'proto': proto, 'faults': RECV_FAULTS if rep % 4 == 0 else [RECV_FAULTS[(rep + j) % len(RECV_FAULTS)] for j in range(3)], 'weight': 3})
         for i in range(3):
             units.append({'kind': 'sm2', 'weight': 2})
         units.append({'kind': 'pkcs8', 'weight': 3})
@@ -227,6 +228,98 @@ def u_handshake_fail(ctx, u):
         judge(ctx, cap, secrets, 'handshake:' + u['proto'], 'tampered-record-%d' % idx)
         T.close_pair(res)
     ctx.sample({'kind': 'handshake-fail', 'proto': u['proto']})
+    srv_ctx.free()
+    cli_ctx.free()
+
+
+RECV_FAULTS = ['truncated-record', 'header-only', 'header-announces-more-than-sent', 'bit-flip', 'junk-type', 'oversized-length',
+               'zero-length', 'replayed-record', 'plaintext-alert', 'close-at-boundary']
+
+
+def u_recv_fail(ctx, u):
+    """Receive-side failure paths on a live connection: data is exchanged in both directions (so buffers hold decrypted
+    plaintext and keys are in use), then the receiver is fed one malformed / truncated / replayed record and reads again.
+    Nothing the receiver prints may contain the plaintext exchanged before or any connection secret."""
+    proto = T.PROTOS[u['proto']]
+    rng = ctx.rng
+    creds = T.Creds(ctx, 'c19r-%d' % u['_i'], 1)
+    srv_ctx, cli_ctx = T.pair_ctx(ctx, creds, proto, False)
+    for fault in u['faults']:
+        for receiver_is_server, reply_first in ((True, False), (False, False), (True, True), (False, True)):
+            first = {}
+
+            def on_record(proxy, idx, d, rec, first=first):
+                if rec[0] == 23 and proxy.eps[0].done.is_set() and proxy.eps[1].done.is_set():
+                    first.setdefault(d, bytes(rec))
+            cap = Capture(ctx)
+            p1, p2 = b'C19-plain-A-' + rng.randbytes(90), b'C19-plain-B-' + rng.randbytes(90)
+            with cap:
+                ctx.begin(['recv-fail', u['proto'], fault, receiver_is_server, reply_first])
+                res = T.run_handshake(ctx, srv_ctx, cli_ctx, seed=rng.randrange(1, 1 << 30), keep_open=True, on_record=on_record)
+                s, c = res['server'], res['client']
+                okk = s.ret == 1 and c.ret == 1
+                rets = []
+                if okk:
+                    rcv, snd = (s, c) if receiver_is_server else (c, s)
+                    direction = 'c>s' if receiver_is_server else 's>c'
+                    snd.thread_setup()
+                    rcv.thread_setup()
+                    snd.send(p1)
+                    rets.append(rcv.recv(4096)[0])
+                    if reply_first:
+                        # the receiver's buffers were last used for sending
+                        rcv.send(p2)
+                        rets.append(snd.recv(4096)[0])
+                    else:
+                        # the receiver's buffers were last used for the record it has just decrypted
+                        rets.append(1)
+                    px = res['proxy']
+                    to_rcv = px.s if receiver_is_server else px.c
+                    good = first.get(direction) or b'\x17\x03\x03\x00\x20' + bytes(32)
+                    ver = good[1:3]
+                    if fault == 'truncated-record':
+                        wire = good[:5 + max(1, (len(good) - 5) // 3)]
+                    elif fault == 'header-only':
+                        wire = good[:5]
+                    elif fault == 'header-announces-more-than-sent':
+                        wire = b'\x17' + ver + (0x60).to_bytes(2, 'big') + rng.randbytes(8)
+                    elif fault == 'bit-flip':
+                        m = bytearray(good)
+                        m[5 + rng.randrange(len(good) - 5)] ^= 1 << rng.randrange(8)
+                        wire = bytes(m)
+                    elif fault == 'junk-type':
+                        wire = bytes([rng.choice([0, 1, 24, 25, 99, 255])]) + good[1:]
+                    elif fault == 'oversized-length':
+                        wire = b'\x17' + ver + (0xffff).to_bytes(2, 'big') + rng.randbytes(300)
+                    elif fault == 'zero-length':
+                        wire = b'\x17' + ver + b'\x00\x00'
+                    elif fault == 'replayed-record':
+                        wire = good
+                    elif fault == 'plaintext-alert':
+                        wire = b'\x15' + ver + b'\x00\x02\x02\x14'
+                    else:
+                        wire = b''
+                    try:
+                        if wire:
+                            to_rcv.sendall(wire)
+                        to_rcv.shutdown(1)        # FIN: the stream ends here
+                    except OSError:
+                        pass
+                    for _ in range(2):
+                        rets.append(rcv.recv(4096)[0])
+                ctx.shim.vf_fflush_all()
+            if not ctx.check(okk and rets[:2] == [1, 1], 'harness:honest-handshake-failed', proto=u['proto'], phase='recv-fail', rets=rets):
+                T.close_pair(res)
+                continue
+            secrets = []
+            for ep in (s, c):
+                secrets += conn_secrets(ctx, ep, proto)
+            secrets += [('server_sign_private', R.i2b(creds.sign_priv)), ('server_enc_private', R.i2b(creds.enc_priv)),
+                        ('password', T.PASSWORD), ('application_plaintext', p1), ('application_plaintext', p2)]
+            judge(ctx, cap, secrets, 'recv:' + u['proto'], fault + (':after-send' if reply_first else ':after-recv'))
+            ctx.stat('recv_fail_cases')
+            T.close_pair(res)
+    ctx.sample({'kind': 'recv-fail', 'proto': u['proto'], 'faults': len(u['faults'])})
     srv_ctx.free()
     cli_ctx.free()
 
@@ -672,5 +765,5 @@ def u_record(ctx, u):
 
 
 def run_unit(ctx, u):
-    {'handshake': u_handshake, 'handshake-fail': u_handshake_fail, 'sm2': u_sm2, 'pkcs8': u_pkcs8, 'import': u_import, 'cms': u_cms, 'sm9': u_sm9,
+    {'handshake': u_handshake, 'handshake-fail': u_handshake_fail, 'recv-fail': u_recv_fail, 'sm2': u_sm2, 'pkcs8': u_pkcs8, 'import': u_import, 'cms': u_cms, 'sm9': u_sm9,
      'record': u_record}[u['kind']](ctx, u)
